@@ -71,7 +71,7 @@ func main() {
 	}
 	switch *solverN {
 	case "z3":
-		cfg.SolverCmd = []string{"z3", "-in", "-t:60000"}
+		cfg.SolverCmd = []string{"z3", "-in", "-t:8000"}
 	case "z3-new":
 		cfg.SolverCmd = []string{"z3-new", "-in", "-t:60000"}
 	case "cvc5":
